@@ -82,7 +82,7 @@ def run(tier, seed, replay):
                     "file named and exit non-zero; empty selection ends cleanly",
                     nat["bound"], nat["cases"], nat["violations"], nontrivial=nat["nontrivial"],
                     samples=nat["samples"], time_s=time.time() - t0)
-    explained = any(i.status == "failed" for i in chk.items)
+    explained = chk.has_unlisted_failure()
     if nat["violations"] and not explained:
         v = nat["violations"][0]
         chk.report_violation("C04.bounded.cli", {"property": "C04", "obligation": "C04.bounded.cli",
